@@ -110,6 +110,7 @@ static volatile uint64_t g_delay_seed;
 static volatile int g_delay_permille, g_delay_max_us;
 static volatile int g_widen, g_widen_us = 20000, g_widen_min_len = 2048;
 static volatile int g_eintr_epoll;
+static volatile int g_shm_widen_us;
 static volatile int g_alarm_count;
 static char g_alarm_text[4096];
 static pthread_mutex_t g_alarm_mu = PTHREAD_MUTEX_INITIALIZER;
@@ -706,6 +707,11 @@ EXPORT int shm_open(const char *name, int oflag, mode_t mode)
     int r = r_shm_open(name, oflag, mode);
     int e = errno;
     mark_created(r);
+    /* widener: keep a freshly created name linked a little longer (the library unlinks it at once) */
+    if (r >= 0 && (oflag & O_CREAT) && g_shm_widen_us > 0 && !t_foreign) {
+        __sync_fetch_and_add(&g_stat_widened, 1);
+        usleep_raw(g_shm_widen_us);
+    }
     tracef("shm_open name=%s ret=%d err=%d", name, r, r < 0 ? e : 0);
     errno = e;
     return r;
@@ -758,6 +764,8 @@ EXPORT void ipcmon_set_delay(uint64_t seed, int permille, int max_us)
 {
     g_delay_seed = seed; g_delay_permille = permille; g_delay_max_us = max_us;
 }
+EXPORT void ipcmon_set_shm_widen(int us) { g_shm_widen_us = us; }
+
 EXPORT void ipcmon_set_widen(int flags, int us, int minlen)
 {
     g_widen = flags; g_widen_us = us; if (minlen > 0) g_widen_min_len = minlen;
